@@ -163,8 +163,8 @@ PROPS["C10"] = dict(
 
 PROPS["C18"] = dict(
     level="proof",
-    verus=["c18_gate", "c18_stringify", "c16_resources", "c18_args"],
-    labels=["C18.", "C13.redirect_resource.", "C13.kind.", "C16.resources."],
+    verus=["c18_gate", "c18_stringify", "c16_resources", "c18_args", "c11_cosmetic_parse"],
+    labels=["C18.", "C13.redirect_resource.", "C13.kind.", "C16.resources.", "C16.cosmetic.parse.", "C11.cosmetic.parse.safety"],
     kani=[KaniSet("src/resources/mod.rs", "c18_perm.rs", [
         Harness("c18_perm_subset", "C18.perm.subset", "C", "all 256x256 pairs; loop over the 8 bit positions fully unwound"),
         Harness("c18_perm_default", "C18.perm.default", "C", "all u8 x u8, loop-free"),
@@ -225,11 +225,12 @@ PROPS["C12"] = dict(
 
 PROPS["C16"] = dict(
     level="proof",
-    verus=["c16_labels", "c16_resources", "c16_store", "c16_engine", "c12_domain"],
-    labels=["C16.", "C18.resources.", "C12.domain."],
+    verus=["c16_labels", "c16_resources", "c16_store", "c16_engine", "c12_domain", "c11_cosmetic_parse"],
+    labels=["C16.", "C18.resources.", "C12.domain.", "C17.cosmetic.parse.", "C18.cosmetic.parse."],
+    witness=["c16_generic_parse.rs"],
     kani=[],
     trusted=["memchr/memrchr (shims)", "seahash uninterpreted",
-             "the parse of the location list (CosmeticFilter::parse) is NOT under contract; add_generic_filter is under contract in unit c17_generic (uninterpreted relation here); the generichide lookup for the page (Engine::url_cosmetic_resources, Blocker::check_generic_hide) is under contract in unit c16_engine with Request::new, NetworkFilterList::check and hostname_cosmetic_resources entering by their contracts",
+             "CosmeticFilter::parse is under contract in unit c11_cosmetic_parse for its frame (markers, +js form, generic restrictions, double negation) with parse_before_sharp (the location list), parse_after_sharp_nonscript and validate_css_selector uninterpreted; add_generic_filter is under contract in unit c17_generic (uninterpreted relation here); the generichide lookup for the page (Engine::url_cosmetic_resources, Blocker::check_generic_hide) is under contract in unit c16_engine with Request::new, NetworkFilterList::check and hostname_cosmetic_resources entering by their contracts",
              "R7 lift in HostnameFilterBin::insert: `if let Some(b) = map.get_mut(k) { b.push(v) } else { map.insert(*k, vec![v]) }` = append under the key (HashMap::get_mut has no vstd specification)",
              "R5/R6 lifts in store_rule: Option<&str>::map(to_string), serde_json::to_string of the procedural filter (an uninterpreted function of operator list and action), iter::empty().chain(a).chain(b) = concatenation; derived Clone = structural copy",
              "a rule has at least one selector operator (precondition of plain_css_selector's assert!, established by CosmeticFilter::parse)",
@@ -287,11 +288,11 @@ PROPS["C09"] = dict(
 
 PROPS["C11"] = dict(
     level="proof",
-    verus=["c11_lists", "c11_pattern_block", "c03_option_text"],
+    verus=["c11_lists", "c11_pattern_block", "c03_option_text", "c11_cosmetic_parse"],
     labels=["C11.", "C03.option_text.safety"],
     kani=[],
     witness=["c11_hosts.rs"],
-    trusted=["NetworkFilter::parse: the pattern / anchor / hostname extraction block (every string slice of it) and the option-name table are under contract (units c11_pattern_block, c03_option_text, c03_apply_options, c03_parse_mask); the hostname normalisation and parse_hosts_style are under contract in c11_pattern_block with to_lowercase, trim_start_matches(\"www.\"), idna and the INVALID_CHARS regex uninterpreted; CosmeticFilter::parse is NOT: uninterpreted result",
+    trusted=["NetworkFilter::parse: the pattern / anchor / hostname extraction block (every string slice of it) and the option-name table are under contract (units c11_pattern_block, c03_option_text, c03_apply_options, c03_parse_mask); the hostname normalisation and parse_hosts_style are under contract in c11_pattern_block with to_lowercase, trim_start_matches(\"www.\"), idna and the INVALID_CHARS regex uninterpreted; CosmeticFilter::parse (unit c11_cosmetic_parse) is under contract for its own slices (the two '#', the marker characters, the `+js(` ... `)` window) with parse_before_sharp, parse_after_sharp_nonscript, validate_css_selector (assumed: an accepted selector has at least one operator) and parse_scriptlet_args (unit c18_args) entering by contract",
              "str::trim, split_whitespace, lines (R5/R6 shims)", "memchr / memrchr (shims)", "UTF-8 facts: an ASCII byte has a character boundary on both sides; both ends of a string are boundaries; ASCII text is encoded byte for character",
              "per-line error isolation in parse_filters_with_metadata (map/filter_map closure pipeline) is not under contract"],
     assumptions=[],
@@ -322,10 +323,10 @@ for _p in PROPS.values():
 
 PROPS["C17"] = dict(
     level="proof",
-    verus=["c17_generic", "c16_store"],
+    verus=["c17_generic", "c16_store", "c11_cosmetic_parse"],
     labels=["C17.", "C16.rule.hidden_generic_rule.", "C16.add_filter."],
     kani=[],
-    witness=["c17_keys.rs"],
+    witness=["c17_keys.rs", "c16_generic_parse.rs"],
     trusted=["key_from_selector (three regexes + CSS unescaping): key_spec is uninterpreted; assumed only that a key starts with the selector's own first character. Its behaviour on concrete selectors is covered by witness inputs replayed on the real crate (vf/witness/c17_keys.rs), not by a contract",
              "CosmeticFilter::plain_css_selector (uninterpreted)",
              "R7 lift: `if let Some(b) = map.get_mut(&k) { b.push(v) } else { map.insert(k, vec![v]) }` = append under a key (HashMap::get_mut has no vstd specification)",
